@@ -25,9 +25,28 @@ func boundary(n int) []*big.Int {
 }
 
 func drawScalar(t *rapid.T, n int) *big.Int {
-	if rapid.IntRange(0, 99).Draw(t, "inmode") < 55 {
+	mode := rapid.IntRange(0, 99).Draw(t, "inmode")
+	if mode < 40 {
 		b := boundary(n)
 		return b[rapid.IntRange(0, len(b)-1).Draw(t, "boundary")]
+	}
+	if mode < 60 {
+		// Position-dependent patterns: the low k bits set (carry and
+		// borrow chains of every length), a single bit, and their
+		// complements.
+		k := rapid.IntRange(0, n-1).Draw(t, "patpos")
+		low := mask(k)
+		bit := new(big.Int).Lsh(big.NewInt(1), uint(k))
+		switch rapid.IntRange(0, 3).Draw(t, "patkind") {
+		case 0:
+			return low
+		case 1:
+			return new(big.Int).Xor(low, mask(n))
+		case 2:
+			return bit
+		default:
+			return new(big.Int).Xor(bit, mask(n))
+		}
 	}
 	v := new(big.Int)
 	for i := 0; i < n; i += 16 {
